@@ -378,9 +378,10 @@ func Random(id int, rng *rand.Rand, o Opts) *Prog {
 	}
 	add(Decl{K: "named", Name: "Kind", Under: &it, Iota: true, Consts: cs, Extra: kindExtra})
 	sv := Basic("string")
-	add(Decl{K: "named", Name: "Color", Under: &sv, Consts: []Const{{Name: "Red", Val: `"red"`}, {Name: "Blue", Val: `"blue"`, Comment: "the blue"}, {Name: "green", Val: `"green"`}}})
+	// (Azure shares the value of Blue: two exported constants, one wire value)
+	add(Decl{K: "named", Name: "Color", Under: &sv, Consts: []Const{{Name: "Red", Val: `"red"`}, {Name: "Blue", Val: `"blue"`, Comment: "the blue"}, {Name: "Azure", Val: `"blue"`}, {Name: "green", Val: `"green"`}}})
 	iv := Basic("int")
-	scs := []Const{{Name: "ScoreLow", Val: "-1"}, {Name: "ScoreHigh", Val: "10"}, {Name: "ScoreMid", Val: "5"}}
+	scs := []Const{{Name: "ScoreLow", Val: "-1"}, {Name: "ScoreHigh", Val: "10"}, {Name: "ScoreTop", Val: "10"}, {Name: "ScoreMid", Val: "5"}}
 	if o.EnumUnexported && rng.Intn(2) == 0 {
 		// an unexported member spelled with a leading underscore (the zero value of the type)
 		scs = append([]Const{{Name: "_ScoreNone", Val: "0"}}, scs...)
